@@ -1,7 +1,7 @@
 (** C18 property theorems: statements only, each closed by [exact]; proofs are in C18/C18_Proofs.v (and C18_Refine.v),
     the model in C18/C18_Model.v, the ghost specification in C18/C18_Spec.v. *)
 From Coq Require Import List Arith Bool PeanoNat.
-Require Import C18_Model C18_Spec C18_Basics C18_Refine C18_Refine2 C18_Refine3 C18_Values C18_Proofs.
+Require Import C18_Model C18_Spec C18_Basics C18_Refine C18_Refine2 C18_Refine3 C18_Values C18_Alloc C18_Proofs.
 Import ListNotations.
 
 Theorem C18_upd_lowers_all_stages cf s o g : inval_of s o = Some g ->
@@ -28,7 +28,12 @@ Theorem C18_valid_iff_spec_partial cf s l : wf_check s = true -> dyn_check s = t
 Proof. exact (valid_iff_spec_partial cf s l). Qed.
 Print Assumptions C18_valid_iff_spec_partial.
 
-Theorem C18_step_refines_spec cf s o : WF s -> Dyn s -> runtime s o = true -> legal cf s o = true ->
+Theorem C18_valid_iff_spec_from_empty_partial cf n l : legal_run cf (st0 n) l = true ->
+  trace cf (st0 n) l = gtrace (abs (st0 n)) l /\ forall k, isUpToDate (run cf (st0 n) l) k = gvalid (grun (abs (st0 n)) l) k.
+Proof. exact (valid_iff_spec_from_empty_partial cf n l). Qed.
+Print Assumptions C18_valid_iff_spec_from_empty_partial.
+
+Theorem C18_step_refines_spec cf s o : WF s -> Dyn s -> covered s o = true -> legal cf s o = true ->
   abs (fst (step cf s o)) = fst (gstep (abs s) o) /\ snd (step cf s o) = snd (gstep (abs s) o) /\ WF (fst (step cf s o)) /\ Dyn (fst (step cf s o)).
 Proof. exact (step_refines_spec cf s o). Qed.
 Print Assumptions C18_step_refines_spec.
@@ -36,6 +41,8 @@ Print Assumptions C18_step_refines_spec.
 Theorem C18_valid_iff_spec_nonvacuous :
   let s := run cfg_now (st0 2) ex_setup in
   wf_check s = true /\ dyn_check s = true /\ legal_run cfg_now s ex_run = true /\ legal_run cfg_fixed s ex_run = true /\
+  legal_run cfg_now (st0 2) (ex_setup ++ ex_run) = true /\ length (ex_setup ++ ex_run) = 43 /\
+  map fst (trace cfg_now (st0 2) ex_setup) = repeat false 19 /\
   isUpToDate (run cfg_now s [AdvSub 0 4; AdvSub 1 4; AdvSys 4; AdvSub 0 5; AdvSub 1 5; AdvSys 5; Mark (0,1)]) (0,1) = true /\
   isUpToDate (run cfg_now s [AdvSub 0 4; AdvSub 1 4; AdvSys 4; AdvSub 0 5; AdvSub 1 5; AdvSys 5; Mark (0,1); Upd WQ; AdvSub 0 5; AdvSub 1 5; AdvSys 5]) (0,1) = false.
 Proof. exact (@valid_iff_spec_nonvacuous). Qed.
